@@ -295,3 +295,8 @@ CASES += [
     dict(id='c03-continuation-through-funnel', prop='C03', file=HC, expect='R15',
          old="         mpLastArg->assignValue( mReadMode != ReadMode::commandLine, ai->mValue,\n            mInverted);", new="         handleIdentifiedArg( mpLastArg, mpLastArg->key(), ai->mValue);"),
 ]
+
+CASES += [
+    dict(id='c08-cross-check-guarded-by-other-flag', prop='C08', file=HC, expect='R3',
+         old="   // another handler of the same argument group either\n   if (mUsedByGroup)", new="   // another handler of the same argument group either\n   if (subGroup.mUsedByGroup)"),
+]
